@@ -481,14 +481,14 @@ func (m *memory) Objects(ctx context.Context, s *node.Node, p *predicate.Predica
 		if lo.FilterOptions != nil {
 			return fmt.Errorf("cannot have LatestAnchor and FilterOptions used at the same time inside lookup options")
 		}
-		lo.FilterOptions = &filter.StorageOptions{
+		// Work on a copy: the lookup options belong to the caller, who may be
+		// sharing them with other concurrent lookups.
+		nlo := *lo
+		nlo.FilterOptions = &filter.StorageOptions{
 			Operation: filter.Latest,
 			Field:     filter.PredicateField,
 		}
-		// To guarantee that "lo.FilterOptions" will be cleaned at the driver level, since it was artificially created at the driver level for "LatestAnchor".
-		defer func() {
-			lo.FilterOptions = (*filter.StorageOptions)(nil)
-		}()
+		lo = &nlo
 	}
 	if lo.FilterOptions != nil {
 		selectedTrpls, err = executeFilter(selectedTrpls, p, lo.FilterOptions)
@@ -534,14 +534,14 @@ func (m *memory) Subjects(ctx context.Context, p *predicate.Predicate, o *triple
 		if lo.FilterOptions != nil {
 			return fmt.Errorf("cannot have LatestAnchor and FilterOptions used at the same time inside lookup options")
 		}
-		lo.FilterOptions = &filter.StorageOptions{
+		// Work on a copy: the lookup options belong to the caller, who may be
+		// sharing them with other concurrent lookups.
+		nlo := *lo
+		nlo.FilterOptions = &filter.StorageOptions{
 			Operation: filter.Latest,
 			Field:     filter.PredicateField,
 		}
-		// To guarantee that "lo.FilterOptions" will be cleaned at the driver level, since it was artificially created at the driver level for "LatestAnchor".
-		defer func() {
-			lo.FilterOptions = (*filter.StorageOptions)(nil)
-		}()
+		lo = &nlo
 	}
 	if lo.FilterOptions != nil {
 		selectedTrpls, err = executeFilter(selectedTrpls, p, lo.FilterOptions)
@@ -589,14 +589,14 @@ func (m *memory) PredicatesForSubjectAndObject(ctx context.Context, s *node.Node
 		if lo.FilterOptions != nil {
 			return fmt.Errorf("cannot have LatestAnchor and FilterOptions used at the same time inside lookup options")
 		}
-		lo.FilterOptions = &filter.StorageOptions{
+		// Work on a copy: the lookup options belong to the caller, who may be
+		// sharing them with other concurrent lookups.
+		nlo := *lo
+		nlo.FilterOptions = &filter.StorageOptions{
 			Operation: filter.Latest,
 			Field:     filter.PredicateField,
 		}
-		// To guarantee that "lo.FilterOptions" will be cleaned at the driver level, since it was artificially created at the driver level for "LatestAnchor".
-		defer func() {
-			lo.FilterOptions = (*filter.StorageOptions)(nil)
-		}()
+		lo = &nlo
 	}
 	if lo.FilterOptions != nil {
 		selectedTrpls, err = executeFilter(selectedTrpls, nil, lo.FilterOptions)
@@ -642,14 +642,14 @@ func (m *memory) PredicatesForSubject(ctx context.Context, s *node.Node, lo *sto
 		if lo.FilterOptions != nil {
 			return fmt.Errorf("cannot have LatestAnchor and FilterOptions used at the same time inside lookup options")
 		}
-		lo.FilterOptions = &filter.StorageOptions{
+		// Work on a copy: the lookup options belong to the caller, who may be
+		// sharing them with other concurrent lookups.
+		nlo := *lo
+		nlo.FilterOptions = &filter.StorageOptions{
 			Operation: filter.Latest,
 			Field:     filter.PredicateField,
 		}
-		// To guarantee that "lo.FilterOptions" will be cleaned at the driver level, since it was artificially created at the driver level for "LatestAnchor".
-		defer func() {
-			lo.FilterOptions = (*filter.StorageOptions)(nil)
-		}()
+		lo = &nlo
 	}
 	if lo.FilterOptions != nil {
 		selectedTrpls, err = executeFilter(selectedTrpls, nil, lo.FilterOptions)
@@ -695,14 +695,14 @@ func (m *memory) PredicatesForObject(ctx context.Context, o *triple.Object, lo *
 		if lo.FilterOptions != nil {
 			return fmt.Errorf("cannot have LatestAnchor and FilterOptions used at the same time inside lookup options")
 		}
-		lo.FilterOptions = &filter.StorageOptions{
+		// Work on a copy: the lookup options belong to the caller, who may be
+		// sharing them with other concurrent lookups.
+		nlo := *lo
+		nlo.FilterOptions = &filter.StorageOptions{
 			Operation: filter.Latest,
 			Field:     filter.PredicateField,
 		}
-		// To guarantee that "lo.FilterOptions" will be cleaned at the driver level, since it was artificially created at the driver level for "LatestAnchor".
-		defer func() {
-			lo.FilterOptions = (*filter.StorageOptions)(nil)
-		}()
+		lo = &nlo
 	}
 	if lo.FilterOptions != nil {
 		selectedTrpls, err = executeFilter(selectedTrpls, nil, lo.FilterOptions)
@@ -748,14 +748,14 @@ func (m *memory) TriplesForSubject(ctx context.Context, s *node.Node, lo *storag
 		if lo.FilterOptions != nil {
 			return fmt.Errorf("cannot have LatestAnchor and FilterOptions used at the same time inside lookup options")
 		}
-		lo.FilterOptions = &filter.StorageOptions{
+		// Work on a copy: the lookup options belong to the caller, who may be
+		// sharing them with other concurrent lookups.
+		nlo := *lo
+		nlo.FilterOptions = &filter.StorageOptions{
 			Operation: filter.Latest,
 			Field:     filter.PredicateField,
 		}
-		// To guarantee that "lo.FilterOptions" will be cleaned at the driver level, since it was artificially created at the driver level for "LatestAnchor".
-		defer func() {
-			lo.FilterOptions = (*filter.StorageOptions)(nil)
-		}()
+		lo = &nlo
 	}
 	if lo.FilterOptions != nil {
 		selectedTrpls, err = executeFilter(selectedTrpls, nil, lo.FilterOptions)
@@ -801,14 +801,14 @@ func (m *memory) TriplesForPredicate(ctx context.Context, p *predicate.Predicate
 		if lo.FilterOptions != nil {
 			return fmt.Errorf("cannot have LatestAnchor and FilterOptions used at the same time inside lookup options")
 		}
-		lo.FilterOptions = &filter.StorageOptions{
+		// Work on a copy: the lookup options belong to the caller, who may be
+		// sharing them with other concurrent lookups.
+		nlo := *lo
+		nlo.FilterOptions = &filter.StorageOptions{
 			Operation: filter.Latest,
 			Field:     filter.PredicateField,
 		}
-		// To guarantee that "lo.FilterOptions" will be cleaned at the driver level, since it was artificially created at the driver level for "LatestAnchor".
-		defer func() {
-			lo.FilterOptions = (*filter.StorageOptions)(nil)
-		}()
+		lo = &nlo
 	}
 	if lo.FilterOptions != nil {
 		selectedTrpls, err = executeFilter(selectedTrpls, p, lo.FilterOptions)
@@ -854,14 +854,14 @@ func (m *memory) TriplesForObject(ctx context.Context, o *triple.Object, lo *sto
 		if lo.FilterOptions != nil {
 			return fmt.Errorf("cannot have LatestAnchor and FilterOptions used at the same time inside lookup options")
 		}
-		lo.FilterOptions = &filter.StorageOptions{
+		// Work on a copy: the lookup options belong to the caller, who may be
+		// sharing them with other concurrent lookups.
+		nlo := *lo
+		nlo.FilterOptions = &filter.StorageOptions{
 			Operation: filter.Latest,
 			Field:     filter.PredicateField,
 		}
-		// To guarantee that "lo.FilterOptions" will be cleaned at the driver level, since it was artificially created at the driver level for "LatestAnchor".
-		defer func() {
-			lo.FilterOptions = (*filter.StorageOptions)(nil)
-		}()
+		lo = &nlo
 	}
 	if lo.FilterOptions != nil {
 		selectedTrpls, err = executeFilter(selectedTrpls, nil, lo.FilterOptions)
@@ -909,14 +909,14 @@ func (m *memory) TriplesForSubjectAndPredicate(ctx context.Context, s *node.Node
 		if lo.FilterOptions != nil {
 			return fmt.Errorf("cannot have LatestAnchor and FilterOptions used at the same time inside lookup options")
 		}
-		lo.FilterOptions = &filter.StorageOptions{
+		// Work on a copy: the lookup options belong to the caller, who may be
+		// sharing them with other concurrent lookups.
+		nlo := *lo
+		nlo.FilterOptions = &filter.StorageOptions{
 			Operation: filter.Latest,
 			Field:     filter.PredicateField,
 		}
-		// To guarantee that "lo.FilterOptions" will be cleaned at the driver level, since it was artificially created at the driver level for "LatestAnchor".
-		defer func() {
-			lo.FilterOptions = (*filter.StorageOptions)(nil)
-		}()
+		lo = &nlo
 	}
 	if lo.FilterOptions != nil {
 		selectedTrpls, err = executeFilter(selectedTrpls, p, lo.FilterOptions)
@@ -964,14 +964,14 @@ func (m *memory) TriplesForPredicateAndObject(ctx context.Context, p *predicate.
 		if lo.FilterOptions != nil {
 			return fmt.Errorf("cannot have LatestAnchor and FilterOptions used at the same time inside lookup options")
 		}
-		lo.FilterOptions = &filter.StorageOptions{
+		// Work on a copy: the lookup options belong to the caller, who may be
+		// sharing them with other concurrent lookups.
+		nlo := *lo
+		nlo.FilterOptions = &filter.StorageOptions{
 			Operation: filter.Latest,
 			Field:     filter.PredicateField,
 		}
-		// To guarantee that "lo.FilterOptions" will be cleaned at the driver level, since it was artificially created at the driver level for "LatestAnchor".
-		defer func() {
-			lo.FilterOptions = (*filter.StorageOptions)(nil)
-		}()
+		lo = &nlo
 	}
 	if lo.FilterOptions != nil {
 		selectedTrpls, err = executeFilter(selectedTrpls, p, lo.FilterOptions)
@@ -1025,14 +1025,14 @@ func (m *memory) Triples(ctx context.Context, lo *storage.LookupOptions, trpls c
 		if lo.FilterOptions != nil {
 			return fmt.Errorf("cannot have LatestAnchor and FilterOptions used at the same time inside lookup options")
 		}
-		lo.FilterOptions = &filter.StorageOptions{
+		// Work on a copy: the lookup options belong to the caller, who may be
+		// sharing them with other concurrent lookups.
+		nlo := *lo
+		nlo.FilterOptions = &filter.StorageOptions{
 			Operation: filter.Latest,
 			Field:     filter.PredicateField,
 		}
-		// To guarantee that "lo.FilterOptions" will be cleaned at the driver level, since it was artificially created at the driver level for "LatestAnchor".
-		defer func() {
-			lo.FilterOptions = (*filter.StorageOptions)(nil)
-		}()
+		lo = &nlo
 	}
 	if lo.FilterOptions != nil {
 		selectedTrpls, err = executeFilter(selectedTrpls, nil, lo.FilterOptions)
